@@ -20,6 +20,16 @@
   6  `lsq_affine_abscissa`, `eulerian_reference_affine`, `fit_modulus_answers`, `fit_modulus_affine`, `static_row_perm`
                                              another reference volume V₀ = volumes[0]: abscissa changes affinely, fitted values do not
   7  `static_keys_canonical`, `static_columns_reordered`   column prefix / letter case / order of the static table
+  9  `vol_check_is_source`, `vol_check_accepts_iff`, `vol_relisting_rejected_or_identical`, `vol_order_unique`,
+     `vol_relisting_accepted_same_volumes`, `vol_relisting_repeated_may_differ`, `vol_strict_check_rejects_repeats`, `vol_check_not_strict`,
+     `vol_check_position_is_source`, `vol_blocks_file_order`
+                                             volume blocks of the phonon file in another order: for a file listed by strictly decreasing
+                                             volume EVERY re-listing is the identity or is rejected by the translated `read_input`
+                                             (tools/gens/volorder_src.py → Generated/VolOrderSpec.lean; the test is read from the installed qha)
+  10 `avg_source_presentation`, `values_source_perm_q`, `values_source_perm_modes`, `values_source_weight_scale`,
+     `interp_cell_is_source`, `static_reader_is_source`
+                                             clauses 1–4 and 7 restated for values assembled from the TRANSLATED pieces
+                                             (Generated.NonShearGlue, Generated.ModeGammaSpec, Generated.Readers)
 
   PARTIAL (details at the theorems):
     * (5/6 are unconditional since the solver-totality proofs `Lemmas/SolveTotal.lean`, `Lemmas/GaussJordan.lean`: on ≥ deg+1
@@ -29,8 +39,12 @@
       the other does, and then the entries correspond.  WHICH exception a failing run raises is not presentation-independent:
       the loop aborts at the first failing cell in loop order, which is another cell after re-indexing — counter-example
       `interp_perm_error_may_differ`.)
-    * volume blocks of the phonon file in another order: goes through qha (grid refinement, its own ordering check) and
-      scipy — no theorem; `harness/c13.py` (vol-rev / vol-shuffle: same numbers or an error) is the only evidence.
+    * volume blocks in another order: PROVED on the translated `read_input` for files listed by strictly decreasing volume (section 9).
+      The installed qha's test is NOT strict (`diff <= 0`): a file with the same volume in neighbouring blocks is accepted, its accepted
+      re-listings have the same volume list (`vol_relisting_accepted_same_volumes`) but may exchange the equal-volume blocks, and then the
+      numbers can differ (`vol_relisting_repeated_may_differ`; harness site `vol-eqswap:differs`, a recorded finding).  What qha and scipy
+      compute AFTER `read_input` is outside the model; it is irrelevant for the clause because the identity re-listing is the same input
+      and every other one never gets past `read_input`.
     * rounding: theorems are over ℝ / ordered fields; "unchanged to rounding" is measured by the harness (1e-8 of scale).
 -/
 import CijProofs.Lemmas.Presentation
@@ -44,6 +58,14 @@ import Generated.AdapterSpec
 import CijProofs.Lemmas.AdapterGuardSource
 import CijProofs.Lemmas.NonShearSource
 import Generated.ReadersSpec
+import CijProofs.Lemmas.VolOrderSource
+import CijProofs.Lemmas.NonShearGlueSource
+import CijProofs.Lemmas.ModeGammaSource
+import CijProofs.Lemmas.ReadersSource
+import Generated.VolOrderSpec
+import Generated.AdapterGuard
+import Generated.CalcGlueSpec
+import Generated.ModeGammaSpec
 
 namespace Cij.C13
 
@@ -669,6 +691,353 @@ example : tableA.Ok ratFmt (.raw "V") [.mod (keyOfVoigt (1, 1)), .mod (keyOfVoig
   decide +kernel
 
 end Examples
+
+/-! ### 9. volume blocks of the phonon file listed in another order: identical or rejected
+
+The reader returns the blocks in file order (`vol_blocks_file_order`, from C17's round trip); `QHACalculator.read_input` — translated on
+every run into `Generated.VolOrder.readInputSteps` by tools/gens/volorder_src.py, its test read from the INSTALLED qha — stores the
+per-block arrays in that order and first demands `numpy.all(numpy.diff(volumes) <= 0)`.  It is the first thing done with the blocks
+(`vol_check_position_is_source`).  `runSteps Generated.VolOrder.readInputSteps` is the meaning of the translated method. -/
+
+section VolOrder
+open Cij.QhaInput Cij.VolOrder
+
+/-- **vol_check_is_source.**  For every scalar type (Float in the driver, ordered fields below) and every data set the hand-written
+`readInput` is the translated statement list run in order — same exception or same five arrays; its test is the expression the
+installed qha spells in `is_monotonic_decreasing` (operator read from qha/tools.py on this run), which is what the guard calls. -/
+theorem vol_check_is_source {α : Type} [Sub α] [OfNat α 0] [LT α] [DecidableLT α] [LE α] [DecidableLE α] (d : Data α) (a : List α) :
+    runSteps Generated.VolOrder.readInputSteps d = (readInput d).map QhaArrays.toStore ∧
+    isMonotonicDecreasing a = allDiff Generated.VolOrder.qhaMonotonicOp a ∧
+    Generated.VolOrder.guardTestOrigin = "qha.tools.is_monotonic_decreasing" :=
+  ⟨readInput_is_source d, rfl, rfl⟩
+
+variable {K : Type} [Field K] [LinearOrder K] [IsStrictOrderedRing K]
+
+/-- **vol_check_accepts_iff.**  The translated `read_input` returns iff the volumes are non-increasing in FILE order — and then it has
+stored every array in file order, nothing sorted, nothing dropped — and raises exactly `RuntimeError` otherwise.  (The installed
+qha's test is `<= 0`, not `< 0`: equal neighbours pass.) -/
+theorem vol_check_accepts_iff (d : Data K) :
+    (runSteps Generated.VolOrder.readInputSteps d
+        = .ok (QhaArrays.toStore { nm := d.nm, volumes := d.volumes.map (·.volume), energies := d.volumes.map (·.energy),
+                                   frequencies := d.volumes.map fun v => v.qPoints.map (·.modes),
+                                   weights := d.weights.map (·.weight) })
+      ↔ d.volumes.Pairwise fun a b => b.volume ≤ a.volume) ∧
+    (runSteps Generated.VolOrder.readInputSteps d = .error (.raised "RuntimeError")
+      ↔ ¬ d.volumes.Pairwise fun a b => b.volume ≤ a.volume) := by
+  have hs : runSteps Generated.VolOrder.readInputSteps d = (readInput d).map QhaArrays.toStore := readInput_is_source d
+  rw [hs]
+  constructor
+  · rw [← readInput_ok_iff d]
+    constructor
+    · intro h
+      cases hr : readInput d with
+      | error e => rw [hr] at h; cases h
+      | ok r =>
+        rw [hr] at h
+        have hcase := (readInput_ok_iff d).mpr
+        by_cases hp : d.volumes.Pairwise fun a b => b.volume ≤ a.volume
+        · rw [← hr]; exact hcase hp
+        · rw [(readInput_error_iff d).mpr hp] at hr; cases hr
+    · intro h; rw [h]; rfl
+  · rw [← readInput_error_iff d]
+    constructor
+    · intro h
+      cases hr : readInput d with
+      | error e => rw [hr] at h; cases h; rfl
+      | ok r => rw [hr] at h; cases h
+    · intro h; rw [h]; rfl
+
+/-- **vol_relisting_rejected_or_identical — the last clause of the property, on the translated `read_input`, at full strength.**
+A phonon file whose blocks are listed by strictly decreasing volume is accepted; for EVERY re-listing `bs'` of its blocks (any
+permutation of the list of blocks — reversed, shuffled, one swap, …) the re-listed data set either IS the original one (the identity
+re-listing: same results trivially) or is rejected with `RuntimeError` before anything is computed.  Never a third outcome. -/
+theorem vol_relisting_rejected_or_identical (d : Data K) (bs' : List (VolumeData K)) (hperm : bs'.Perm d.volumes)
+    (hdec : d.volumes.Pairwise fun a b => b.volume < a.volume) :
+    (∃ r, runSteps Generated.VolOrder.readInputSteps d = .ok r) ∧
+    (relist d bs' = d ∨ runSteps Generated.VolOrder.readInputSteps (relist d bs') = .error (.raised "RuntimeError")) := by
+  refine ⟨⟨_, (vol_check_accepts_iff d).1.mpr (hdec.imp le_of_lt)⟩, ?_⟩
+  by_cases hacc : (relist d bs').volumes.Pairwise fun a b => b.volume ≤ a.volume
+  · left
+    have : bs' = d.volumes := perm_eq_of_decreasing (fun v => v.volume) d.volumes bs' hperm hdec hacc
+    rw [this]; rfl
+  · right
+    exact (vol_check_accepts_iff (relist d bs')).2.mpr hacc
+
+/-- the same statement on the volumes alone: a permutation of a strictly decreasing list of volumes passes the installed qha's test
+iff it is that list -/
+theorem vol_order_unique (vols vols' : List K) (hperm : vols'.Perm vols) (hdec : vols.Pairwise fun a b => b < a) :
+    allDiff Generated.VolOrder.qhaMonotonicOp vols' = true ↔ vols' = vols := by
+  constructor
+  · intro h
+    exact perm_eq_of_decreasing (fun v => v) vols vols' hperm hdec ((allDiff_le_iff vols').mp h)
+  · intro h
+    rw [h]
+    exact (allDiff_le_iff vols).mpr (hdec.imp le_of_lt)
+
+/-- **vol_relisting_accepted_same_volumes — files with a repeated volume.**  Because the test is not strict, a file with equal volumes
+in neighbouring blocks IS accepted.  For ANY accepted file and ANY accepted re-listing of its blocks the list of volumes (hence qha's
+`_volumes`) is the same: the two listings can differ only in the order of blocks that carry the SAME volume. -/
+theorem vol_relisting_accepted_same_volumes (d : Data K) (bs' : List (VolumeData K)) (hperm : bs'.Perm d.volumes)
+    (hacc : ∃ r, runSteps Generated.VolOrder.readInputSteps d = .ok r)
+    (hacc' : ∃ r, runSteps Generated.VolOrder.readInputSteps (relist d bs') = .ok r) :
+    bs'.map (·.volume) = d.volumes.map (·.volume) ∧
+      ∀ v, (bs'.filter fun b => decide (b.volume = v)).Perm (d.volumes.filter fun b => decide (b.volume = v)) := by
+  have h1 : d.volumes.Pairwise fun a b => b.volume ≤ a.volume := by
+    by_contra hn
+    obtain ⟨r, hr⟩ := hacc
+    rw [(vol_check_accepts_iff d).2.mpr hn] at hr; cases hr
+  have h2 : bs'.Pairwise fun a b => b.volume ≤ a.volume := by
+    by_contra hn
+    obtain ⟨r, hr⟩ := hacc'
+    rw [(vol_check_accepts_iff (relist d bs')).2.mpr hn] at hr; cases hr
+  exact ⟨perm_map_eq_of_nonincreasing (fun v => v.volume) d.volumes bs' hperm h1 h2, fun v => hperm.filter _⟩
+
+/-- … and the blocks that share a volume are NOT protected: **vol_relisting_repeated_may_differ**.  Four blocks with volumes 3, 2, 2, 1
+(the two blocks at volume 2 carry different frequencies, 5 and 7): the file and the re-listing that exchanges the two middle blocks are
+both accepted by the translated `read_input`, they are different data sets, qha receives different `_frequencies`, and an interpolator
+that thins its nodes by POSITION (`[::ceil(nv/order)]`, order 2: positions 0 and 2) builds on different frequencies — the numbers can
+differ although no error is raised.  Reproduced on the real code by harness/c13.py (`vol-eqswap`). -/
+theorem vol_relisting_repeated_may_differ :
+    let blk : ℚ → ℚ → VolumeData ℚ := fun v f => ⟨0, v, 0, [⟨[], [0, 0, 0, f]⟩]⟩
+    let d : Data ℚ := { nv := 4, nq := 1, np := 4, nm := 1, na := 1, weights := [⟨[0, 0, 0], 1⟩],
+                        volumes := [blk 3 4, blk 2 5, blk 2 7, blk 1 9] }
+    let bs' := [blk 3 4, blk 2 7, blk 2 5, blk 1 9]
+    bs'.Perm d.volumes ∧ relist d bs' ≠ d ∧
+    (runSteps Generated.VolOrder.readInputSteps d).toBool = true ∧
+    (runSteps Generated.VolOrder.readInputSteps (relist d bs')).toBool = true ∧
+    (runSteps Generated.VolOrder.readInputSteps d).map (·.lookup "_volumes")
+      = (runSteps Generated.VolOrder.readInputSteps (relist d bs')).map (·.lookup "_volumes") ∧
+    (runSteps Generated.VolOrder.readInputSteps d).map (·.lookup "_frequencies")
+      ≠ (runSteps Generated.VolOrder.readInputSteps (relist d bs')).map (·.lookup "_frequencies") ∧
+    Cij.Interp.thin 2 (d.volumes.map fun b => (b.qPoints.map (·.modes)).flatten.getD 3 0) = [4, 7] ∧
+    Cij.Interp.thin 2 (bs'.map fun b => (b.qPoints.map (·.modes)).flatten.getD 3 0) = [4, 5] := by
+  refine ⟨?_, by decide +kernel, by decide +kernel, by decide +kernel, by decide +kernel, by decide +kernel, by decide +kernel,
+    by decide +kernel⟩
+  exact List.Perm.cons _ (List.Perm.swap _ _ _)
+
+/-- what a STRICT test would give (`numpy.all(numpy.diff(volumes) < 0)`, the repair suggested for the finding above): no list with a
+repeated volume passes, in any order — a file with a repeated volume would never be accepted -/
+theorem vol_strict_check_rejects_repeats (vols : List K) (h : ¬ vols.Nodup) : allDiff .lt vols = false := by
+  by_contra hn
+  exact h (allDiff_lt_nodup vols (by simpa using hn))
+
+/-- … whereas the test the installed qha spells accepts equal neighbours -/
+theorem vol_check_not_strict (x y : K) (hxy : y ≤ x) : allDiff Generated.VolOrder.qhaMonotonicOp [x, y, y] = true :=
+  (allDiff_le_iff [x, y, y]).mpr (by simp [hxy])
+
+/-- **vol_check_position_is_source.**  WHEN the check runs, from four translated pieces:
+* inside `read_input` the guard tests `_volumes`, negated (`if not …`), directly after the statement that stores the file's volumes in
+  file order, and no per-block array is stored before it;
+* `read_input` is the first call `_load_qha_calculator` makes on the qha calculator (before `refine_grid`);
+* the adapter is built in `Calculator._load`, the first step of `Calculator.__init__`, right after the two readers, and is the only
+  statement of `_load` that is handed `self.qha_input`;
+* the only other functions of cij/core that read the volume blocks are `interpolate_modes` and `_calculate_pressure_static`, both called
+  by later steps of `__init__`.
+So no number is computed from the blocks before their order has been checked. -/
+theorem vol_check_position_is_source :
+    (∃ pre post, Generated.VolOrder.readInputSteps
+        = pre ++ [.perBlock "_volumes" .volume, .guard ⟨"_volumes", true, Generated.VolOrder.qhaMonotonicOp, "RuntimeError"⟩] ++ post ∧
+      pre.all (fun s => match s with | .scalar _ _ => true | _ => false) = true ∧
+      post.all (fun s => match s with | .guard _ => false | _ => true) = true) ∧
+    Generated.adapterLoadCalls.head? = some ("read_input", "qha_input") ∧
+    Generated.CalcGlue.initSteps.head? = some ("call", "_load", ["config_fname"]) ∧
+    "Calculator._load" ∈ Generated.CalcGlue.pinnedMethods ∧
+    Generated.VolOrder.loadSteps.map (fun s => (s.1, s.2.2))
+      = [("config", false), ("config", false), ("qha_input", false), ("elast_data", false), ("qha_calculator", true)] ∧
+    Generated.VolOrder.loadSteps.getLast? = some ("qha_calculator", "QHACalculatorAdapter", true) ∧
+    Generated.VolOrder.volumeBlockReaders.map (fun r => (r.1, r.2.1))
+      = [("calculator", "Calculator._calculate_pressure_static"), ("mode_gamma", "interpolate_modes"),
+         ("qha_adapter", "QHACalculator.read_input")] ∧
+    ("call", "_interpolate_modes", []) ∈ Generated.CalcGlue.initSteps.tail ∧
+    ("call", "_calculate_pressure_static", []) ∈ Generated.CalcGlue.initSteps.tail := by
+  refine ⟨⟨[.scalar "_formula_unit_number" "nm"], _, rfl, by decide, by decide⟩, by decide, by decide, by decide, by decide,
+    by decide, by decide, by decide, by decide⟩
+
+omit [Field K] [LinearOrder K] [IsStrictOrderedRing K] in
+/-- **vol_blocks_file_order.**  "Listing the blocks in another order" in the FILE is `relist` on the reader's result: for every
+well-formed data set and every list of blocks `bs'`, the file `write_energy` prints for the re-listed data set is read back by
+`read_energy` with exactly the blocks `bs'`, in that order (numbers rounded to the printed precision) — the reader neither sorts nor
+drops blocks (C17 `read_write_energy_source`, i.e. through the formats and regexes `Generated.Readers` holds now). -/
+theorem vol_blocks_file_order {Num : Type} (F : NumFmt Num) (hF : F.Lawful) (d : Data Num) (bs' : List (VolumeData Num))
+    (hd : WellFormed (relist d bs')) (comment : Line) (hc : matchInfo comment = none) :
+    ∃ ls, writeEnergy F (relist d bs') comment = some ls ∧
+      (readEnergy F ls).map (·.volumes) = some (bs'.map (roundVolume F)) := by
+  obtain ⟨ls, hw, hr⟩ := Cij.C17.read_write_energy F hF (relist d bs') hd comment hc
+  exact ⟨ls, hw, by rw [hr]; rfl⟩
+
+end VolOrder
+
+/-! ### 10. clauses 1–4 and 7 restated on the translated code
+
+`Cij.NSGlue.srcLong` / `srcOff` bundle what tools/gens/nonshear_src.py reads off `nonshear.py` on this run (averaging method → module
+function → reduction tree, `clear_gamma_point`, prefactor expressions, wiring, `Q`, bodies, T = 0 statements); `q1Src`/`q2Src` are the
+translated `Q1`/`Q2`.  The invariance theorems of sections 1–3 are stated here for values ASSEMBLED FROM THOSE PIECES ONLY. -/
+
+section OnSource
+open Cij.NSGlue
+
+/-- **avg_source_presentation.**  `self.average_over_modes` as translated (both classes) does not depend on the order of the q-points
+after Γ listed together with their weights, on the order of the modes inside a q-point (Γ: of its non-acoustic modes), nor on a common
+factor on all weights. -/
+theorem avg_source_presentation :
+    (∀ (r0 : List ℝ) (w0 : ℝ) (rs rs' : List (List ℝ)) (ws ws' : List ℝ), rs.length = ws.length → rs'.length = ws'.length →
+      (rs.zip ws).Perm (rs'.zip ws') →
+      srcLong.avg (r0 :: rs) (w0 :: ws) = srcLong.avg (r0 :: rs') (w0 :: ws') ∧
+      srcOff.avg (r0 :: rs) (w0 :: ws) = srcOff.avg (r0 :: rs') (w0 :: ws')) ∧
+    (∀ (r0 r0' : List ℝ) (rs rs' : List (List ℝ)) (w : List ℝ), (r0.drop 3).Perm (r0'.drop 3) → r0.length = r0'.length →
+      List.Forall₂ List.Perm rs rs' →
+      srcLong.avg (r0 :: rs) w = srcLong.avg (r0' :: rs') w ∧ srcOff.avg (r0 :: rs) w = srcOff.avg (r0' :: rs') w) ∧
+    (∀ (X : List (List ℝ)) (w : List ℝ) (c : ℝ), c ≠ 0 → sumL w ≠ 0 →
+      srcLong.avg X (w.map fun x => c * x) = srcLong.avg X w ∧ srcOff.avg X (w.map fun x => c * x) = srcOff.avg X w) := by
+  refine ⟨fun r0 w0 rs rs' ws ws' hl hl' h => ?_, fun r0 r0' rs rs' w hΓ hlen hrs => ?_, fun X w c hc hw => ?_⟩
+  · simp only [srcLong_avg, srcOff_avg, avg_perm_q r0 w0 rs rs' ws ws' hl hl' h, and_self]
+  · simp only [srcLong_avg, srcOff_avg, avg_perm_modes r0 r0' rs rs' w hΓ hlen hrs, and_self]
+  · simp only [srcLong_avg, srcOff_avg, avg_weight_scale X w c hc hw, and_self]
+
+/-- **values_source_perm_q.**  `value_isothermal` of both non-shear classes, assembled from the translated pieces only, at any (T, V)
+point: unchanged when the q-points after Γ are listed in another order together with their weights. -/
+theorem values_source_perm_q (c : Consts ℝ) (T P cv V e0 e1 pst : ℝ) (g : QPoint) (qs qs' : List QPoint) (hq : qs.Perm qs') :
+    srcLong.valueIsothermalAt q1Src q2Src c ((g :: qs).map (·.w)) T P cv (sliceOfQ V e0 e1 pst (g :: qs))
+      = srcLong.valueIsothermalAt q1Src q2Src c ((g :: qs').map (·.w)) T P cv (sliceOfQ V e0 e1 pst (g :: qs')) ∧
+    srcOff.valueIsothermalAt q1Src q2Src c ((g :: qs).map (·.w)) T P cv (sliceOfQ V e0 e1 pst (g :: qs))
+      = srcOff.valueIsothermalAt q1Src q2Src c ((g :: qs').map (·.w)) T P cv (sliceOfQ V e0 e1 pst (g :: qs')) := by
+  have h := values_perm_q c T P cv V e0 e1 pst g qs qs' hq
+  simp only [values, List.cons.injEq, and_true] at h
+  rw [q1Src_eq, q2Src_eq, srcLong_valueIsothermal, srcLong_valueIsothermal, srcOff_valueIsothermal, srcOff_valueIsothermal,
+    h.1, h.2.1]
+  exact ⟨rfl, rfl⟩
+
+/-- **values_source_perm_modes.**  … when the modes inside the q-points are listed in another order (Γ: its non-acoustic modes) -/
+theorem values_source_perm_modes (c : Consts ℝ) (T P cv V e0 e1 pst : ℝ) (g g' : List ModeRec) (S S' : List (List ModeRec))
+    (w : List ℝ) (hΓ : (g.drop 3).Perm (g'.drop 3)) (hlen : g.length = g'.length) (hS : List.Forall₂ List.Perm S S') :
+    srcLong.valueIsothermalAt q1Src q2Src c w T P cv (sliceOfM V e0 e1 pst (g :: S))
+      = srcLong.valueIsothermalAt q1Src q2Src c w T P cv (sliceOfM V e0 e1 pst (g' :: S')) ∧
+    srcOff.valueIsothermalAt q1Src q2Src c w T P cv (sliceOfM V e0 e1 pst (g :: S))
+      = srcOff.valueIsothermalAt q1Src q2Src c w T P cv (sliceOfM V e0 e1 pst (g' :: S')) := by
+  have h := values_perm_modes c T P cv V e0 e1 pst g g' S S' w hΓ hlen hS
+  simp only [values, List.cons.injEq, and_true] at h
+  rw [q1Src_eq, q2Src_eq, srcLong_valueIsothermal, srcLong_valueIsothermal, srcOff_valueIsothermal, srcOff_valueIsothermal,
+    h.1, h.2.1]
+  exact ⟨rfl, rfl⟩
+
+/-- **values_source_weight_scale.**  … when all weights are multiplied by a common factor -/
+theorem values_source_weight_scale (c : Consts ℝ) (T P cv : ℝ) (s : VolSlice ℝ) (w : List ℝ) (a : ℝ) (ha : a ≠ 0)
+    (hw : sumL w ≠ 0) :
+    srcLong.valueIsothermalAt q1Src q2Src c (w.map fun x => a * x) T P cv s = srcLong.valueIsothermalAt q1Src q2Src c w T P cv s ∧
+    srcOff.valueIsothermalAt q1Src q2Src c (w.map fun x => a * x) T P cv s = srcOff.valueIsothermalAt q1Src q2Src c w T P cv s := by
+  have h := values_weight_scale c T P cv s w a ha hw
+  simp only [values, List.cons.injEq, and_true] at h
+  rw [q1Src_eq, q2Src_eq, srcLong_valueIsothermal, srcLong_valueIsothermal, srcOff_valueIsothermal, srcOff_valueIsothermal,
+    h.1, h.2.1]
+  exact ⟨rfl, rfl⟩
+
+open Cij.Interp in
+/-- **interp_cell_is_source — mode-by-mode independence on the translated glue.**  For every method that dispatches to a source function
+`f` (order ≥ 1): the loop body of `interpolate_modes` for the position (j, k) is a function of THAT position's series alone — zeros in the
+three Γ-acoustic slots, otherwise the nodes prepared as `Generated.modeNodesSpec` says `f` prepares them (thinned?/flipped?), handed to the
+kernel, the samples mapped by the triple pattern `Generated.modeReturnPattern` holds for `f`; and the loop (skip condition, series
+extraction, dispatch) is the one the translator compared.  This is the per-cell fact `interp_perm_equivariant(_total)` rests on. -/
+theorem interp_cell_is_source {α : Type} [Neg α] [Zero α] [ExpLog α] (m : Method) (f : String) (h : m.pyFunction = some f)
+    (order : ℕ) (ho : order ≠ 0) (I : Interpolant α) (vols vArray : List α) :
+    Generated.interpolateModesLoopCanonical = true ∧
+    Generated.modeReturnPattern.lookup f = some canonicalPattern ∧
+    ∃ sp, Generated.modeNodesSpec.lookup f = some sp ∧ ∀ (j k : ℕ) (ser : List α),
+      cell m order I vols vArray j k ser =
+        if isΓac (j, k) then .ok (vArray.map fun _ => (0, 0, 0))
+        else if m = .hermite then .error .typeError
+        else (do
+          let r ← I ((nodesBySpec sp order vols).map ExpLog.log) ((nodesBySpec sp order ser).map ExpLog.log) (vArray.map ExpLog.log)
+          pure (r.map fun t => (applyElem t (true, false, 0), applyElem t (false, true, 1), applyElem t (false, true, 2)))) := by
+  obtain ⟨hpat, -, sp, hsp, hnodes⟩ := Cij.C11.mode_glue_is_source m f h order ho I vols vols vols vols vArray
+  refine ⟨rfl, hpat, sp, hsp, fun j k ser => ?_⟩
+  obtain ⟨sp', hsp', hn⟩ := mode_nodes_is_source m f h order ho vols ser
+  rw [hsp] at hsp'
+  cases hsp'
+  have hunk : m ≠ .unknown := by
+    intro hm; rw [hm] at h; cases h
+  unfold cell isΓac
+  by_cases hΓ : (j == 0 && decide (k < 3)) = true
+  · simp [hΓ]
+  · simp only [hΓ, Bool.false_eq_true, if_false]
+    have hu : (m == Method.unknown) = false := by
+      cases m <;> first | rfl | exact absurd rfl hunk
+    simp only [hu, Bool.false_eq_true, if_false]
+    unfold interpolateMode
+    rw [hn]
+    by_cases hh : m = .hermite
+    · subst hh; rfl
+    · have hb : (m == Method.hermite) = false := by
+        cases m <;> first | rfl | exact absurd rfl hh
+      simp only [hh, if_false]
+      show (if (m == Method.hermite) = true then _ else _) = _
+      rw [hb]
+      exact finish_is_pattern I _ _ vArray
+
+open Cij.ElastDat Cij.ReadersSource Generated in
+/-- **static_reader_is_source — columns by name, rows in file order.**  `read_elast_data` as `Generated.Readers` describes it now: a table
+row is read as `fields[rowVolumeIndex]` + `zip(keys[rowKeySlice:], fields[rowValueSlice:])` — every value is stored under the KEY of its
+column (the key line through `_find_modulus_key`, whatever prefix/case), the rows are consed in FILE order (nothing sorted: the reference
+volume of `fit_modulus` is the first listed row, which `static_row_perm` shows to be immaterial), and the lattice rows likewise. -/
+theorem static_reader_is_source {Num : Type} (F : NumFmt Num) :
+    (∀ keys n ls, readRows F keys (n + 1) ls = ((ls.headD []).mapM (convNum F Readers.rowConv)).bind fun fields =>
+      (fields[Readers.rowVolumeIndex]?).bind fun v =>
+        (readRows F keys n ls.tail).bind fun (vs, r) =>
+          some (⟨v, dictOfZip (keys.drop Readers.rowKeySlice) (fields.drop Readers.rowValueSlice)⟩ :: vs, r)) ∧
+    (∀ n ls, readLattice F (n + 1) ls = ((ls.headD []).mapM (convNum F Readers.latticeConv)).bind fun fields =>
+      (readLattice F n ls.tail).bind fun rest => some (fields :: rest)) ∧
+    Readers.rowKeySlice = Readers.rowValueSlice :=
+  ⟨(Cij.C17.readers_model_is_source_elast F).2.1, (Cij.C17.readers_model_is_source_elast F).2.2.1, by decide⟩
+
+end OnSource
+
+/-! #### non-vacuity of sections 9 and 10 -/
+
+section Examples2
+open Cij.QhaInput Cij.VolOrder
+
+/-- a 4-block data set over ℚ listed by decreasing volume (hypothesis of `vol_relisting_rejected_or_identical`) … -/
+def blocks4 : List (VolumeData ℚ) :=
+  [⟨0, 40, -1, [⟨[], [0, 0, 0, 9]⟩]⟩, ⟨1, 35, -2, [⟨[], [0, 0, 0, 10]⟩]⟩, ⟨2, 30, -2, [⟨[], [0, 0, 0, 12]⟩]⟩,
+   ⟨3, 25, -1, [⟨[], [0, 0, 0, 15]⟩]⟩]
+/-- the same blocks with the two middle ones exchanged -/
+def blocks4swap : List (VolumeData ℚ) :=
+  [⟨0, 40, -1, [⟨[], [0, 0, 0, 9]⟩]⟩, ⟨2, 30, -2, [⟨[], [0, 0, 0, 12]⟩]⟩, ⟨1, 35, -2, [⟨[], [0, 0, 0, 10]⟩]⟩,
+   ⟨3, 25, -1, [⟨[], [0, 0, 0, 15]⟩]⟩]
+def data4 : Data ℚ := { nv := 4, nq := 1, np := 4, nm := 2, na := 1, weights := [⟨[0, 0, 0], 1⟩], volumes := blocks4 }
+
+example : (blocks4.Pairwise fun a b => b.volume < a.volume) ∧ blocks4swap.Perm blocks4 ∧ blocks4.reverse.Perm blocks4 ∧
+    (blocks4.rotate 1).Perm blocks4 := by decide +kernel
+
+/-- … is accepted by the translated `read_input`, arrays in file order; reversed, with the two middle blocks exchanged, and rotated it is
+rejected with RuntimeError — the three non-identity re-listings tried here are all instances of the second disjunct -/
+example : runSteps Generated.VolOrder.readInputSteps data4
+      = .ok [("_q_weights", .vec [1]), ("_frequencies", .cube [[[0, 0, 0, 9]], [[0, 0, 0, 10]], [[0, 0, 0, 12]], [[0, 0, 0, 15]]]),
+             ("_static_energies", .vec [-1, -2, -2, -1]), ("_volumes", .vec [40, 35, 30, 25]), ("_formula_unit_number", .nat 2)] ∧
+    runSteps Generated.VolOrder.readInputSteps (relist data4 blocks4.reverse) = .error (.raised "RuntimeError") ∧
+    runSteps Generated.VolOrder.readInputSteps (relist data4 blocks4swap) = .error (.raised "RuntimeError") ∧
+    runSteps Generated.VolOrder.readInputSteps (relist data4 (blocks4.rotate 1)) = .error (.raised "RuntimeError") := by
+  decide +kernel
+
+/-- the boundary cases of the test as the installed qha spells it: no block / one block pass; equal neighbours pass; an increase fails -/
+example : allDiff Generated.VolOrder.qhaMonotonicOp ([] : List ℚ) = true ∧ allDiff Generated.VolOrder.qhaMonotonicOp [(7 : ℚ)] = true ∧
+    allDiff Generated.VolOrder.qhaMonotonicOp [(3 : ℚ), 2, 2, 1] = true ∧ allDiff Generated.VolOrder.qhaMonotonicOp [(3 : ℚ), 2, 5 / 2, 1] = false ∧
+    allDiff .lt [(3 : ℚ), 2, 2, 1] = false := by
+  decide +kernel
+
+/-- `avg_source_presentation` is about a non-trivial function: the translated averaging on a 2-q-point array -/
+example : Cij.NSGlue.srcOff.avg [[7, 7, 7, 3], [1, 1, 1, 1]] ([1, 3] : List ℝ) = some (15 / 16) := by
+  rw [Cij.NSGlue.srcOff_avg]
+  norm_num [averageOverModes, clearGamma, zeroFirst, mean, sumL]
+
+/-- `interp_cell_is_source`: every method has a source function, and the node preparation differs between them (lsq_poly: file order;
+lagrange: thinned and flipped) -/
+example : (Cij.Interp.Method.lsqPoly).pyFunction = some "interpolate_mode_lsq_poly" ∧
+    Generated.modeNodesSpec.lookup "interpolate_mode_lsq_poly" = some (false, false) ∧
+    Generated.modeNodesSpec.lookup "interpolate_mode_lagrange" = some (true, true) ∧
+    Cij.Interp.nodesBySpec (true, true) 2 [(40 : ℚ), 35, 30, 25] = [30, 40] := by
+  decide +kernel
+
+end Examples2
 
 /-! #### ties shared with other properties
 
